@@ -270,7 +270,8 @@ func main() {
 		fmt.Println(r)
 		for _, f := range r.Failures {
 			p.Viols = append(p.Viols, vcommon.Violation{Scenario: name, Fingerprint: firstLine(f.Msg),
-				Message: f.Msg + "\nhistory: " + strings.Join(f.Ops, " ; "), Witness: map[string]any{"ops": f.Ops, "variant": *vcommon.Variant, "scenario": name}})
+				Message: f.Msg + "\nhistory: " + strings.Join(f.Ops, " ; "), Witness: map[string]any{"ops": f.Ops, "variant": *vcommon.Variant, "scenario": name},
+				ReplayGo: replayGo(ops, f.Path, f.Msg)})
 		}
 	}
 	switch *vcommon.Variant {
@@ -389,4 +390,35 @@ func firstLine(s string) string {
 		return s[:i]
 	}
 	return s
+}
+
+// replayGo renders the failing history as a plain Go test against the uninstrumented package
+// (with the real list size the migration needs 257 ranges, so a history found with list size 3
+// documents the sequence rather than reproducing it verbatim).
+func replayGo(ops []opT, path []int, msg string) string {
+	var b strings.Builder
+	b.WriteString("package netutil_test\n\nimport (\n\t\"net\"\n\t\"testing\"\n\n\t\"github.com/whoisnian/glb/util/netutil\"\n)\n\n")
+	b.WriteString("func TestReplayC11(t *testing.T) {\n\tf := netutil.NewIPv4Filter()\n\tbuf := make(net.IP, 4) // a caller-owned buffer reused between calls\n\t_ = buf\n")
+	for _, i := range path {
+		if i < 0 || i >= len(ops) {
+			continue
+		}
+		o := ops[i]
+		verb := "Remove"
+		if o.add {
+			verb = "Add"
+		}
+		ones, bits := o.arg.Mask.Size()
+		switch {
+		case o.shared:
+			fmt.Fprintf(&b, "\tcopy(buf, net.IP{%d, %d, %d, %d})\n\tt.Log(f.%s(&net.IPNet{IP: buf, Mask: net.CIDRMask(%d, %d)}))\n\tcopy(buf, []byte{0xee, 0xee, 0xee, 0xee})\n", o.arg.IP[0], o.arg.IP[1], o.arg.IP[2], o.arg.IP[3], verb, ones, bits)
+		case len(o.arg.IP) == 4 && bits == 32:
+			fmt.Fprintf(&b, "\tt.Log(f.%s(&net.IPNet{IP: net.IP{%d, %d, %d, %d}, Mask: net.CIDRMask(%d, 32)})) // %s\n", verb, o.arg.IP[0], o.arg.IP[1], o.arg.IP[2], o.arg.IP[3], ones, o.name)
+		default:
+			fmt.Fprintf(&b, "\t// %s\n", o.name)
+		}
+	}
+	fmt.Fprintf(&b, "\t// expected by the set-of-prefixes model, observed otherwise:\n\t// %s\n", strings.ReplaceAll(firstLine(msg), "\n", " "))
+	b.WriteString("\tfor _, p := range []string{\"0.0.0.0\", \"10.0.0.0\", \"10.0.0.1\", \"10.255.255.255\", \"127.255.255.255\", \"128.0.0.0\", \"255.255.255.255\"} {\n\t\tt.Logf(\"Contains(%s)=%v\", p, f.Contains(net.ParseIP(p)))\n\t}\n}\n")
+	return b.String()
 }
